@@ -1,6 +1,7 @@
 # C09 — Dispersion measures are non-negative and bands are ordered around their middle
 from props.util import *
 
+aux_big = True   # also run the auxiliary big-period family (periods 2500 / 4100, two ring wraps) through the bit-exact tie
 rule = ("SD, MAD >= 0 and never NaN; TR, ATR >= 0 for bars with low <= high; MIN <= MAX on the same stream; lower <= average <= upper for BB and KC with "
         "multipliers {0, 0.5, 2, 1e6}; CE long <= window max, short >= window min; MACD / PPO histogram == line - signal exactly; SMA, WMA within "
         "[window min, window max] and EMA within [history min, history max] up to tau(t)*maxmag: cancellation-prone streams (large values then flat, "
